@@ -22,7 +22,7 @@ PAIRS = [("X", "Y"), ("X", "Z"), ("Y", "X"), ("Y", "Z"), ("Z", "X"), ("Z", "Y")]
 
 
 def tasks(tier):
-    t = [("t_flow", {"flow": fl, "pair": list(pr)}) for fl in ("simple_shear_2d", "cell_2d", "corner_2d") for pr in (PAIRS if tier == "thorough" else [PAIRS[1], PAIRS[3], PAIRS[4]])]
+    t = [("t_flow", {"flow": fl, "pair": list(pr)}) for fl in ("simple_shear_2d", "cell_2d", "corner_2d") for pr in PAIRS]
     t += [("t_strain_increment", {}), ("t_pathline_helpers", {}), ("t_bad_axes", {})]
     return t
 
